@@ -33,6 +33,7 @@ CONSTANTS NU,        \* use the first NU units of UnitList
                      \* "indexes": from the position in list(array.indexes)                  [history: seeded defect sb2]
           Memo,      \* FALSE: every constructor call builds its coordinates afresh [the code]
                      \* TRUE: the coordinate array is memoised on (start, stop, step) and shared [history: seeded defect C16-r4sb1]
+          SweepStride, \* decimal step sweep: k/1000 for every SweepStride-th k
           WriteVia,  \* set_value_at_pos writes into "data" itself [the code] / a "promoted" view-or-copy [history: seeded defect C16-r8sb2]
           ClampBy,   \* high clamp of get_coord_index: "dim" = sizes[dim] [the code] / "total" = arr.size [history: seeded defect C16-r6sb1]
           RangeBy,   \* "coords": get_dim_range = min / max of the coordinates [the code]
@@ -74,6 +75,11 @@ MkRange(o, s, a4, m, sm) == MkRangeH(o, s, a4, m, sm, <<>>)
 InitRange == \/ \E s \in Units, a4 \in Starts, m \in 1..MaxM :
                    \/ \E o \in RangeOpts(s, m, a4 = StartList[1]) : c = MkRange(o, s, a4, m, "near")
                    \/ c = MkRange(Opt("range", TRUE, <<>>, <<>>), s, a4, m, "fma")
+             \* a sweep of decimal steps k/1000 (every SweepStride-th in 1..999), the three constructors with an explicit step:
+             \* the recorded step must be the requested double and the coordinates start + i*step, whatever the decimal
+             \/ \E k \in {x \in 1..999 : x % SweepStride = 1 % SweepStride}, fn \in {"range", "time", "freq"},
+                   mm \in {8} \cup (IF SweepStride = 1 THEN {18} ELSE {}) :
+                   c = MkRange(Opt(fn, TRUE, <<>>, <<>>), <<k, 1000>>, StartList[1], mm, "near")
              \* histories: first two units, first start, stops on half steps
              \/ \E u \in 1..2, mh \in {x \in 2..MaxM : x % 2 = 0}, fn1 \in {"range", "time", "freq"}, fn2 \in {"range", "time", "freq"}, mut \in {"add", "set0"} :
                    c = MkRangeH(Opt(fn1, TRUE, <<>>, <<>>), UnitList[u], StartList[1], mh, "near", <<<<mut, fn2>>>>)
